@@ -25,6 +25,10 @@ import runner  # noqa: E402
 import replay as replay_mod  # noqa: E402
 
 CACHE = os.path.join(ROOT, ".cache")
+# Where evidence/ and replays/ are written.  /verif by default; the seeded-mutant regression
+# (vc/seeds.py) points it at a scratch directory so that a run on a deliberately broken copy can
+# never overwrite the evidence of the real tree.
+OUT = os.environ.get("VERIF_OUT_DIR") or ROOT
 ASSUME_RX = re.compile(r"external_body|assume_specification|\baxiom\b|\bassume\s*\(|\badmit\s*\(|external_fn_specification|external_type_specification|#\[verifier::external\b")
 
 
@@ -441,7 +445,7 @@ def main():
         if f["obligation"] in seen:
             continue
         seen.add(f["obligation"])
-        rp, reproduced = replay_mod.make_replay(ROOT, prop, f, results, tier)
+        rp, reproduced = replay_mod.make_replay(OUT, prop, f, results, tier)
         if f.get("skeleton_changed") and not reproduced:
             undecided.append("%s failed but the control skeleton of %s changed and no input reproduced; contracts may be stale" % (f["obligation"], f["fn"]))
             continue
@@ -455,8 +459,8 @@ def main():
         if kh:
             lines.append("KNOWN-FINDING: property=%s %s [%s]" % (prop, kh[0]["what"], oid))
             continue
-        os.makedirs(os.path.join(ROOT, "replays"), exist_ok=True)
-        rp = os.path.join(ROOT, "replays", "%s-%s.json" % (prop, re.sub(r"[^A-Za-z0-9_.#@\[\]-]+", "_", oid)))
+        os.makedirs(os.path.join(OUT, "replays"), exist_ok=True)
+        rp = os.path.join(OUT, "replays", "%s-%s.json" % (prop, re.sub(r"[^A-Za-z0-9_.#@\[\]-]+", "_", oid)))
         with open(rp, "w") as fh:
             json.dump({"property": prop, "obligation": oid, "kind": "bounded stand-in (not a proof obligation)",
                        "reproduced": True, "failing_input": obs.get("failing_inputs") or b.get("input"), "observed": obs,
@@ -474,7 +478,7 @@ def main():
             f = {"obligation": "%s.undecided" % u.unit, "fn": None, "unit": u.unit, "repo": None,
                  "message": "verifier undecided: " + "; ".join(u.undecided)[:400], "rendered": "\n".join(u.undecided)[:4000],
                  "props": [prop], "skeleton_changed": True, "match_all_witnesses": True}
-            rp, reproduced = replay_mod.make_replay(ROOT, prop, f, results, tier)
+            rp, reproduced = replay_mod.make_replay(OUT, prop, f, results, tier)
             if reproduced:
                 rc = 1
                 lines.append("VIOLATION property=%s replay=%s" % (prop, rp))
@@ -536,8 +540,8 @@ def main():
                 with open(os.path.join(ROOT, "units", u.unit, "skeletons.json"), "w") as f:
                     json.dump(u.skeletons_now, f, indent=1, sort_keys=True)
                     f.write("\n")
-    os.makedirs(os.path.join(ROOT, "evidence"), exist_ok=True)
-    with open(os.path.join(ROOT, "evidence", "%s.json" % prop), "w") as f:
+    os.makedirs(os.path.join(OUT, "evidence"), exist_ok=True)
+    with open(os.path.join(OUT, "evidence", "%s.json" % prop), "w") as f:
         json.dump(ev, f, indent=1, sort_keys=True)
         f.write("\n")
     print("%s tier=%s units=%s obligations=%d discharged=%d violated=%d known=%d undecided=%d smt=%.2fs wall=%.1fs" % (
